@@ -49,6 +49,7 @@ def plan(tier, seed):
     specs += [{'kind': 'corpus', 'part': i, 'parts': 4} for i in range(4)]
     specs += [{'kind': 'cli', 'seed': seed * 1000 + 700 + j, 'count': 14 if tier == 'quick' else 50} for j in range(4)]
     specs += [{'kind': 'options', 'part': i, 'parts': 6} for i in range(6)]
+    specs += [{'kind': 'encoding', 'part': i, 'parts': 2} for i in range(2)]
     return specs
 
 
@@ -357,6 +358,72 @@ def run_shard(spec):
             step = max(1, len(src) // 400)
             for cut in range(0, len(src), step):
                 api_case(res, src[:cut], f'prefix of length {cut}', outcomes, assemble_it=False)
+        res['exhaustive'] = True
+    elif k == 'encoding':
+        # byte sequences (invalid, overlong, surrogate, truncated UTF-8; BOM; valid multi-byte) at every kind of place in a
+        # source FILE: the file path (SourceCode.from_file -> parse -> evaluate -> generate) in-process and through the CLI
+        from hidc.lexer import SourceCode
+        from hidc.parser import parse
+        from hidc.ast import Environment
+        from hidc.codegen import CodeGen
+        CompilerError, _ = env.compiler_error_types()
+        seqs = [b'\xe9', b'\xff', b'\xc3', b'\x80', b'\xed\xa0\x80', b'\xf8\x88\x80\x80\x80', b'\xc0\xaf', b'\xf4\x90\x80\x80', b'\xe2\x82',
+                '\u00e9'.encode(), '\U0001F30E'.encode(), b'\xef\xbb\xbf', b'\x00', b'\x1a', b'\x7f']
+        places = {
+            'string literal': lambda x: b'empty @is_you() { writeln("a' + x + b'b"); }\n',
+            'char literal': lambda x: b"empty @is_you() { write('" + x + b"'); }\n",
+            'comment': lambda x: b'// c ' + x + b'\nempty @is_you() { writeln("ok"); }\n',
+            'trailing comment without newline': lambda x: b'empty @is_you() { writeln("ok"); } // ' + x,
+            'identifier': lambda x: b'empty @is_you() { int v' + x + b' = 1; write(v' + x + b'); }\n',
+            'between tokens': lambda x: b'empty @is_you() { ' + x + b' writeln("ok"); }\n',
+            'start of file': lambda x: x + GOOD,
+            'end of file': lambda x: GOOD + x,
+            'inside a number': lambda x: b'empty @is_you() { write(1' + x + b'2); }\n',
+            'after a backslash in a string': lambda x: b'empty @is_you() { writeln("a\\' + x + b'"); }\n',
+        }
+        scratch = os.environ.get('HIDVERIF_SCRATCH') or os.path.join(env.VERIF, '.scratch')
+        os.makedirs(scratch, exist_ok=True)
+        path = os.path.join(scratch, f'enc-{os.getpid()}.hid')
+        n = 0
+        for pn, mk in places.items():
+            for x in seqs:
+                n += 1
+                if n % spec['parts'] != spec['part']:
+                    continue
+                data = mk(x)
+                with open(path, 'wb') as f:
+                    f.write(data)
+                res['evaluations'] += 1
+                res['nontrivial'].append(runner.case_id('enc', data))
+                case = {'input_bytes': data.decode('latin-1'), 'what': f'{x!r} in {pn}', 'via': 'SourceCode.from_file'}
+                try:
+                    source = SourceCode.from_file(path)
+                except (OSError, UnicodeError):
+                    runner.count(res, 'file_refused_on_reading')          # the refusal the command-line tool reports cleanly
+                    source = None
+                except Exception as e:  # noqa
+                    runner.fail(res, 'M-EXC', f'{x!r} in {pn}: from_file: {type(e).__name__}: {e}', case)
+                    continue
+                if source is not None:
+                    try:
+                        envr = Environment.empty()
+                        parse(source).evaluate(envr)
+                        list(CodeGen(envr, 2, 500, False).gen_lines())
+                        runner.count(res, 'file_compiled')
+                    except CompilerError as e:
+                        try:
+                            e.get_info(source)
+                            runner.count(res, 'file_rejected_with_diagnostic')
+                        except Exception as e2:  # noqa
+                            runner.fail(res, 'M-EXC', f'{x!r} in {pn}: the diagnostic {type(e).__name__}({e}) cannot be rendered: {type(e2).__name__}: {e2}', case)
+                    except Exception as e:  # noqa
+                        runner.fail(res, 'M-EXC', f'{x!r} in {pn}: {type(e).__name__}: {str(e)[:100]} escapes from {diff.innermost_hidc_frame(e)}', case)
+                if n % 5 == 0:
+                    run_cli(res, data, [], f'{x!r} in {pn}')
+        try:
+            os.remove(path)
+        except OSError:
+            pass
         res['exhaustive'] = True
     elif k == 'cli':
         base = corpus(r, spec['seed'], 3)
